@@ -17,7 +17,7 @@ import (
 
 var (
 	c05Clients = []string{"10.1.0.5", "10.2.0.5", "172.16.0.9", "2001:db8:1::5", "10.1.7.9"}
-	c05Options = []string{"", "10.1.3.0/24", "0.0.0.0/0", "10.2.3.0/24", "10.1.3.7/24", "172.16.5.0/24", "badfamily", "badlen", "2001:db8:1:2::/64", "::/0", "dup:10.1.3.0/24+10.2.9.0/24"}
+	c05Options = []string{"", "10.1.3.0/24", "0.0.0.0/0", "10.2.3.0/24", "10.1.3.7/24", "172.16.5.0/24", "badfamily", "badlen", "2001:db8:1:2::/64", "::/0", "dup:10.1.3.0/24+10.2.9.0/24", "twoopt:10.2.9.0/24"}
 	c05Names   = []string{"dep.", "s0.", ecsFakeName, "odd.", "depfx."}
 )
 
@@ -68,6 +68,11 @@ func c05Check(q ecsQuery, resp *dns.Msg, calls []ecsCall, err error, fresh *dns.
 			}
 			fs = append(fs, vrt.F(key, "query %+v: upstream got ECS %s; allowed are only the GeoIP subnets of the client's / option's location or the zero prefix %v", q, c.subnet, allowed)...)
 		}
+	}
+	if strings.HasPrefix(q.ECS, "twoopt:") {
+		// How a query with two OPT records is answered is not specified by the
+		// statement; only the forwarding rules above are checked.
+		return fs
 	}
 	if present && !valid {
 		if len(calls) > 0 {
